@@ -268,7 +268,14 @@ PROPS = {
                   "BluetoeModel.Cccd.cccd_read_after_write",
                   "BluetoeModel.Cccd.cccd_isolation",
                   "BluetoeModel.Cccd.callback_iff_changed",
-                  "BluetoeModel.Cccd.cccd_positions_distinct"],
+                  "BluetoeModel.Cccd.cccd_positions_distinct",
+                  "BluetoeModel.Cccd.cccd_position_in_array",
+                  "BluetoeModel.Cccd.shape_invariant",
+                  "BluetoeModel.Cccd.cccd_never_oob",
+                  "BluetoeModel.Cccd.step_keeps_shape",
+                  "BluetoeModel.Cccd.access_in_bounds",
+                  "BluetoeModel.Cccd.attr_clause_exact"],
+        imports=["BluetoeModel.Cccd.Props", "BluetoeModel.Cccd.PropsOob"],
         run=run_c09,
         level="proof",
         technique="Lean 4 proof of the 2-bit packing (all indices, any size), of the CCCD access function and of the "
@@ -277,6 +284,10 @@ PROPS = {
                    "cccd_write_exact / cccd_read_after_write / callback_iff_changed: the CCCD access function stores and returns "
                    "exactly the two written bits and reports a change iff the stored value changed; cccd_isolation and "
                    "cccd_positions_distinct: other connections and other CCCDs are untouched for every priority assignment. "
+                   "cccd_never_oob / shape_invariant / cccd_position_in_array: for every well-formed table (decidable declWF: bound "
+                   "values of the declared size, CCCD positions < number of configurations, max MTU >= 23; evaluated by the model "
+                   "driver on every table of the real templates) and every history of all connections no flags( i ) / flags( i, v ) "
+                   "leaves configs_ and no value access leaves the bound object (the model's Out.oob is unreachable). "
                    "Tied to the code by differential runs on servers with 1/4/5/9 CCCDs with and without priorities.",
         level_note="Trusted: Lean kernel + standard axioms; the priorities computed by outgoing_priority.hpp are an input of the "
                    "model (printed by the real templates, compared on every session); Read By Type / Read Multiple / notification "
